@@ -345,5 +345,11 @@ def run(ctx):
     c09.check_every_pool_ticked(ctx, 4)     # a write-out counts down only in the pool's tick: no pool may be left out
     pool.ob_moves_classified(ctx, 5)
     pool.ob_deltas(ctx, 5)
+    # a container that is writing out keeps its allocation only if nothing new is admitted into it: admission is tested against the free
+    # counters, which still exclude it (C03#3)
+    from . import c03
+    c03.check_admission(Renumber(ctx, {3: 5}), 3)
     c02.check_suffix_slices(ctx, 6)
     check_states(ctx, 6)
+    # "returns work intact": operators of a container that is writing out can only go back to PENDING (C02#1: the table)
+    c02.check_table(Renumber(ctx, {1: 6}))
